@@ -297,9 +297,11 @@ pub fn run(args: &Args, rep: &mut Report) {
                 }
                 Ok(())
             })();
+            // a pure read session must not have written (counted before the volume object is destroyed: its
+            // destructor may legitimately store a recomputed FAT32 free count, C13's documented exception)
+            let wrote = dev.0.borrow().n_writes > 0;
             drop(fs);
-            // a pure read session must not have written
-            if dev.0.borrow().n_writes > 0 && res.is_ok() {
+            if wrote && res.is_ok() {
                 return Err(("read-session-wrote".to_string(), "device writes during a read-only walk".to_string()));
             }
             res
